@@ -232,7 +232,8 @@ class SyncedDict(SyncedCollection, MutableMapping):
         return ret
 
     def clear(self):  # noqa: D102
-        self._data = {}
+        # Modify the container in place: buffered collections may share it.
+        self._data.clear()
         with self._thread_lock:
             self._save()
 
